@@ -10,6 +10,8 @@
   D5 R-MOVE  ownership transfers: take_code nulls the field; asm_code is not
              freed after it moved to the program
   D6 R-NULL  non-destructor releases null the field they freed
+  D7 R-SYM   the code-chunk list links stay consistent across split/merge (shared with C09-D1):
+             a stale link makes orc_code_chunk_free release a chunk another OrcCode still owns
 """
 from facts import AnalysisBroken, access_path, strip_casts, unparse
 from flow import Facts, single_defs, describe_path
@@ -288,5 +290,10 @@ def run(ctx):
         f = db.func(fn, tub)
         rep.saw(f)
         n6 += free_then_null(f, rep, "D6-FREE-THEN-NULL", ("OrcProgram", "OrcParser"))
+    # ---- D7: the chunk list stays consistent across split / merge -----------------------
+    # (orc_code_chunk_free merges through prev/next: a stale link releases a chunk that a live OrcCode still owns)
+    import importlib
+    importlib.import_module("rules.c09").d1(db, rep, "D7-CHUNK-LINKS", "D7-CHUNK-LINKS")
+
     if n6 < 6:
         raise AnalysisBroken("only %d free-then-null instances found" % n6)
